@@ -2,10 +2,10 @@
 # usage: run_all.sh [quick|thorough] [ids...]  -- runs the registered checks one after the other, prints one line each
 TIER=${1:-quick}; shift
 IDS=${@:-C01 C02 C03 C04 C05 C06 C07 C08 C09 C10 C11 C12 C13 C14 C15 C16 C17 C18 C19 C20}
-cd /verif
+cd "$(dirname "$0")/.."
 for id in $IDS; do
   s=$(date +%s)
-  ./check $id --tier $TIER > /tmp/runall_$id.log 2>&1; rc=$?
+  ./check $id --tier $TIER > ${RUNALL_LOGDIR:-/tmp}/runall_$id.log 2>&1; rc=$?
   e=$(date +%s)
-  echo "$id tier=$TIER exit=$rc $((e-s))s viol=$(grep -c '^VIOLATION' /tmp/runall_$id.log) known=$(grep -c '^KNOWN-FINDING' /tmp/runall_$id.log) $(grep -c '^HARNESS' /tmp/runall_$id.log | sed 's/^0$//;s/^[1-9].*/HARNESS-BROKEN/')"
+  echo "$id tier=$TIER exit=$rc $((e-s))s viol=$(grep -c '^VIOLATION' ${RUNALL_LOGDIR:-/tmp}/runall_$id.log) known=$(grep -c '^KNOWN-FINDING' ${RUNALL_LOGDIR:-/tmp}/runall_$id.log) $(grep -c '^HARNESS' ${RUNALL_LOGDIR:-/tmp}/runall_$id.log | sed 's/^0$//;s/^[1-9].*/HARNESS-BROKEN/')"
 done
